@@ -36,7 +36,7 @@ def cases(tier, seed):
         s = gen.make_spec(lt, edges)
         add(s, both, 'flat2')
         if len(edges) >= 1 and lt[0][1] in ('L', 'SA', 'LT', 'T1') and lt[1][1] in ('T1', 'T2', 'LT', 'PPT2'):
-            for mode in ('split', 'dup') + (('deep',) if tier != 'quick' else ()):
+            for mode in ('split', 'dup', 'deepdup') + (('deep',) if tier != 'quick' else ()):
                 add(gen.wrap_hier(s, mode), both, 'hier_' + mode)
     # unshared template objects and float32 slice
     for lt, edges in gen.flat_circuits(2, 1, ['L', 'T1', 'LT']):
